@@ -43,17 +43,18 @@ STRINGS = ["02-03-2016", "10/11/12", "12 janvier 2020", "12 enero 2020", "3 Mär
            "hier", "in 3 weeks", "March 2015", "2015", "Monday", "14:05", "1500000000", "ika-3 ng Pebrero 2016", "2016-02-03T10:00:00Z",
            "1 января 2020 г.", "12 de enero de 2020", "5 Jan 2015 2 PM EST", "31.12.1999", "1 day ago 2 PM", "le 12 janvier 2020 à 10h30",
            "12 Ocak 2020", "今天", "2020年1月12日", "sept 2015", "01-01-1000", "tomorrow", "noon", "t 12 jan 2020", "in 2 years", "Feb 29",
-           "29 February 2019", "0001-01-01", "9999-12-31 23:59", "13/13/2013", "", "no date here", "Tuesday 4 October 1957"]
+           "29 February 2019", "02/03/2020 10h15", "31 février 2020", "32.13.2003", "0001-01-01", "9999-12-31 23:59", "13/13/2013", "", "no date here", "Tuesday 4 October 1957"]
 TEXTS = ["It was launched on 4 October 1957. We remembered it 2 days ago, yesterday.",
          "Le 12 janvier 2020. Puis hier.", "Treffen am 3. März 2015 um 14:05 Uhr. Gestern.", "yesterday and 10/11/12",
          "Встреча 1 января 2020 г. в 10:00. Вчера.", "今天 2020年1月12日", "on 02-03-2016, in 3 weeks", "nothing to see",
          "12 Ocak 2020 de geldi. dün."]
-LANGS = [None, ["en"], ["fr"], ["es"], ["de"], ["tr"], ["tl"], ["ru"], ["zh"], ["fr", "en"], ["es", "fr"], ["en", "tl"], ["de", "tr", "fr"]]
+LANGS = [None, ["ja"], ["en"], ["fr"], ["es"], ["de"], ["tr"], ["tl"], ["ru"], ["zh"], ["fr", "en"], ["es", "fr"], ["en", "tl"], ["de", "tr", "fr"]]
 REGIONS = [None, None, None, "BE", "US", "CA", "ZZ"]
 SETTINGS = [None, None, None,
             {}, {"SKIP_TOKENS": ["de"]}, {"SKIP_TOKENS": []}, {"SKIP_TOKENS": ["t"]}, {"NORMALIZE": False}, {"NORMALIZE": True},
             {"DATE_ORDER": "DMY"}, {"DATE_ORDER": "YMD"}, {"PREFER_LOCALE_DATE_ORDER": False}, {"PREFER_LOCALE_DATE_ORDER": True},
-            {"DEFAULT_LANGUAGES": ["fr"]}, {"DEFAULT_LANGUAGES": ["tl", "en"]}, {"PARSERS": ["absolute-time"]},
+            {"DEFAULT_LANGUAGES": ["fr"]}, {"DEFAULT_LANGUAGES": ["tl", "en"]}, {"DEFAULT_LANGUAGES": ["fr", "en"]}, {"DEFAULT_LANGUAGES": ["en", "fr"]},
+            {"SKIP_TOKENS": ["de", "t"]}, {"SKIP_TOKENS": ["t", "de"]}, {"PARSERS": ["absolute-time", "relative-time"]}, {"PARSERS": ["absolute-time"]},
             {"PARSERS": ["relative-time", "timestamp"]}, {"CACHE_SIZE_LIMIT": 1}, {"CACHE_SIZE_LIMIT": 2}, {"CACHE_SIZE_LIMIT": 1000},
             {"CACHE_SIZE_LIMIT": 1, "NORMALIZE": False}, {"RELATIVE_BASE": [1957, 10, 4, 0, 0, 0, 0]}, {"RELATIVE_BASE": [2020, 2, 29, 12, 0, 0, 0]},
             {"RELATIVE_BASE": [1, 1, 1, 0, 0, 0, 0], "PREFER_DATES_FROM": "past"}, {"RELATIVE_BASE": [9999, 12, 31, 23, 0, 0, 0], "PREFER_DATES_FROM": "future"},
@@ -70,9 +71,14 @@ BAD_SETTINGS = [{"FOO": 1}, {"DATE_ORDER": "XYZ"}, {"PARSERS": ["x"]}, {"TIMEZON
 FORMATS = [None, None, None, ["%d-%m-%Y"], ["%m/%d/%y"], ["%B %Y"], ["%Y"]]
 CAL_STRINGS = ["1394/06/26", "26 شهریور 1394", "جمعه سی ام اسفند ۱۳۸۷", "1390-13-45", "x"]
 HIJRI_STRINGS = ["17-01-1437 هـ 08:30 مساءً", "1437/01/17", "30-02-1433", "y"]
-PROBES = [("parse", "02-03-2016", None, None, None, None, None), ("parse", "yesterday", None, ["en"], None, None, None),
-          ("parse", "27 Haziran 1981 de", None, ["tr"], None, None, None), ("parse", "12 janvier 2020", None, ["fr", "en"], None, None, None),
-          ("parse", "t 12 jan 2020", None, ["en"], None, None, None), ("search", TEXTS[0], ["en"], None, False)]
+PROBES = [
+    # first the probes that read the default Settings object as it was left behind ('tl' has no date order of its own, the
+    # calendar parsers use the default object directly) — a search call re-initialises it, so that probe comes last
+    ("parse", "02-03-2016", None, ["tl"], None, None, None), ("calendar", "hijri", "01-02-1437"),
+    ("parse", "02-03-2016", None, ["en"], None, None, {"PREFER_LOCALE_DATE_ORDER": False}),
+    ("parse", "02-03-2016", None, None, None, None, None), ("parse", "yesterday", None, ["en"], None, None, None),
+    ("parse", "27 Haziran 1981 de", None, ["tr"], None, None, None), ("parse", "12 janvier 2020", None, ["fr", "en"], None, None, None),
+    ("parse", "t 12 jan 2020", None, ["en"], None, None, None), ("search", TEXTS[0], ["en"], None, False)]
 
 
 def _settings(sd):
@@ -401,13 +407,21 @@ def histories(draw, maxlen):
     return {"history": h}
 
 
-PROBE_STRINGS = ["yesterday", "2 days ago", "02-03-2016", "01/02/2020", "02-03-2016", "10/11/12", "27 Haziran 1981 de", "t 12 jan 2020", "March 2015", "Monday",
+PROBE_STRINGS = ["yesterday", "2 days ago", "02-03-2016", "01/02/2020", "02-03-2016", "02/03/2020 10h15", "10/11/12", "27 Haziran 1981 de", "t 12 jan 2020", "March 2015", "Monday",
                  "12 janvier 2020", "hier", "tomorrow", "14:05", "sept 2015", "12 Ocak 2020", "in 3 weeks", "1 day ago 2 PM"]
 
 
 def _variant(draw, sd):
     """a settings dict equal to sd, or differing from it in exactly one key, or unrelated"""
-    k = draw(st.integers(0, 6))
+    k = draw(st.integers(0, 7))
+    if k == 7 and sd:
+        # the same dict with one list value in another order
+        base = copy.deepcopy(sd)
+        for key, val in base.items():
+            if isinstance(val, list) and len(val) > 1 and key != "RELATIVE_BASE":
+                base[key] = list(reversed(val))
+                return base
+        return base
     if k == 6 or (sd in DEFAULT_EQUIV and k >= 4):
         return copy.deepcopy(draw(st.sampled_from(DEFAULT_EQUIV)))
     if k <= 1:
@@ -433,9 +447,25 @@ def triples(draw):
     region = draw(st.sampled_from(REGIONS))
     s1 = draw(st.sampled_from(PROBE_STRINGS))
     use_instance = draw(st.booleans())
+    if draw(st.integers(0, 9)) == 0:
+        # order-sensitive list settings: the fallback order of DEFAULT_LANGUAGES matters when the given languages fail and
+        # the given order is requested; the interfering call uses the same list in another order
+        dl = draw(st.permutations(draw(st.sampled_from([["fr", "en"], ["de", "en"], ["es", "en", "fr"]]))))
+        S1 = dict(draw(st.sampled_from([{}, {"NORMALIZE": True}, {"PREFER_DATES_FROM": "past"}])), DEFAULT_LANGUAGES=list(dl))
+        L1 = draw(st.sampled_from([["ja"], ["zh"], ["ko"]]))
+        region = None
+        s1 = draw(st.sampled_from(["02/03/2020 10h15", "02.03.2020 10h15", "02-03-2016 Uhr"]))
+        h = [["new_parser", 0, L1, None, None, True, copy.deepcopy(S1)]]
+        S2 = dict(S1, DEFAULT_LANGUAGES=list(reversed(S1["DEFAULT_LANGUAGES"]))) if draw(st.booleans()) else _variant(draw, S1)
+        if draw(st.booleans()):
+            h.append(["new_parser", 1, draw(st.sampled_from([L1, ["en"]])), None, None, draw(st.booleans()), S2])
+        else:
+            h.append(["parse", draw(st.sampled_from(STRINGS)), None, draw(st.sampled_from(LANGS[1:])), None, None, S2])
+        h.append(["use_parser", 0, s1, None])
+        return {"history": h}
     h = []
     if use_instance:
-        h.append(["new_parser", 0, L1, None, region, False, copy.deepcopy(S1)])
+        h.append(["new_parser", 0, L1, None, region, draw(st.booleans()), copy.deepcopy(S1)])
         if draw(st.booleans()):
             h.append(["use_parser", 0, s1, None])
     else:
